@@ -201,6 +201,45 @@ pub fn pairs() -> Vec<(&'static str, String, String)> {
             v.push(("anon-named-3", sugar, plain));
         }
     }
+    // Product: assignment operator (both writing directions) x destination shape x source shape.
+    // The expansion is generated from the same description.
+    struct Source {
+        text: &'static str,
+        /// declaration and input wiring of the expansion
+        setup: &'static str,
+        values: &'static [&'static str],
+    }
+    let sources2 = [
+        Source { text: "(a * b * a, a + b)", setup: "", values: &["a * b * a", "a + b"] },
+        Source { text: "TO2()(a)", setup: "component ANON = TO2();\n    ANON.in <== a;\n    ", values: &["ANON.o1", "ANON.o2"] },
+        Source { text: "parallel TO2()(a)", setup: "component ANON = parallel TO2();\n    ANON.in <== a;\n    ", values: &["ANON.o1", "ANON.o2"] },
+        Source { text: "TO2()(in <-- a * a * a)", setup: "component ANON = TO2();\n    ANON.in <-- a * a * a;\n    ", values: &["ANON.o1", "ANON.o2"] },
+    ];
+    let sources1 = [
+        Source { text: "T2(n)(a, b)", setup: "component ANON = T2(n);\n    ANON.in1 <== a;\n    ANON.in2 <== b;\n    ", values: &["ANON.out"] },
+        Source { text: "parallel T2(n)(a, b)", setup: "component ANON = parallel T2(n);\n    ANON.in1 <== a;\n    ANON.in2 <== b;\n    ", values: &["ANON.out"] },
+        Source { text: "T2(n)(in2 <-- b, in1 <== a * a * b)", setup: "component ANON = T2(n);\n    ANON.in1 <== a * a * b;\n    ANON.in2 <-- b;\n    ", values: &["ANON.out"] },
+        Source { text: "parallel T2(n)(in2 <-- b, in1 <== a * a * b)", setup: "component ANON = parallel T2(n);\n    ANON.in1 <== a * a * b;\n    ANON.in2 <-- b;\n    ", values: &["ANON.out"] },
+        Source { text: "parallel T1()(in <-- a * a * a)", setup: "component ANON = parallel T1();\n    ANON.in <-- a * a * a;\n    ", values: &["ANON.out"] },
+    ];
+    let dests2: [(&str, [Option<&str>; 2]); 3] = [("(s1, s2)", [Some("s1"), Some("s2")]), ("(s1, _)", [Some("s1"), None]), ("(_, s2)", [None, Some("s2")])];
+    for (op, plain_op, leftward) in [("<==", "<==", true), ("<--", "<--", true), ("==>", "<==", false), ("-->", "<--", false)] {
+        let mut emit = |dest: &str, targets: &[Option<&str>], src: &Source| {
+            let sugar = if leftward { format!("{dest} {op} {};", src.text) } else { format!("{} {op} {dest};", src.text) };
+            let mut plain = src.setup.to_string();
+            let lines: Vec<String> = targets.iter().zip(src.values.iter()).filter_map(|(t, v)| t.map(|t| format!("{t} {plain_op} {v};"))).collect();
+            plain.push_str(&lines.join("\n    "));
+            v.push(("operator-product", sugar, plain));
+        };
+        for (dest, targets) in &dests2 {
+            for src in &sources2 {
+                emit(dest, targets, src);
+            }
+        }
+        for src in &sources1 {
+            emit("s1", &[Some("s1")], src);
+        }
+    }
     let mut add = |name: &'static str, sugar: &str, plain: &str| v.push((name, sugar.to_string(), plain.to_string()));
     add("anon-expression-input", "s1 <== T2(n + 1)(a + b, a * b);", "component ANON = T2(n + 1);\n    ANON.in1 <== a + b;\n    ANON.in2 <== a * b;\n    s1 <== ANON.out;");
     v
